@@ -94,7 +94,10 @@ def run_read(case, R):
             w.acc.on_request = hook
             try:
                 try:
-                    res = await w.pairing.get_characteristics(ids if case.get("arg") != "set" else set(ids))
+                    # the parameter is an Iterable: callers pass lists, sets, tuples and one-shot iterables alike
+                    arg = {"set": set, "tuple": tuple, "iter": iter, "gen": lambda x: (i for i in x), "keys": lambda x: dict.fromkeys(x).keys()}.get(case.get("arg"), list)(ids)
+                    R.cls("arg:" + str(case.get("arg", "list")))
+                    res = await w.pairing.get_characteristics(arg)
                 except Exception as e:  # noqa: BLE001
                     R.fail("C13.read-raises", f"{what}: {type(e).__name__}: {e}", exc=type(e).__name__)
                     return
@@ -127,6 +130,10 @@ def enum_read(tier):
         for listed in itertools.product([True, False], repeat=3):
             for vec in (["value", "value", "value"], ["value", -70402, 0], [-70409, "value", "value+0"]):
                 yield {"ids": ids3, "outcomes": vec, "global": gs, "listed": list(listed)}
+    for arg in ("list", "set", "tuple", "iter", "gen", "keys"):
+        for gs in (None, -70402, 70402):
+            for listed in ([True, True, True], [True, False, False], [False, False, False], [False, True, False]):
+                yield {"ids": ids3, "outcomes": ["value", "value", -70409 if gs is None else "value"], "global": gs, "listed": listed, "via": "world", "arg": arg}
     for m in MALFORMED:
         for pos in (0, 1, 5):
             yield {"ids": ids3, "outcomes": ["value", -70402, "value"], "malformed": [[pos, m]]}
@@ -142,7 +149,7 @@ def read_cases(draw):
             "global": draw(st.sampled_from([None, None, 0, -70402, 70402, -12345, -70408])),
             "listed": [draw(st.sampled_from([True, True, False])) for _ in ids],
             "malformed": draw(st.lists(st.tuples(st.integers(0, 5), st.sampled_from(MALFORMED)).map(list), max_size=2)),
-            "dup": draw(st.booleans()), "via": draw(st.sampled_from(["direct", "direct", "world"])), "arg": draw(st.sampled_from(["list", "set"]))}
+            "dup": draw(st.booleans()), "via": draw(st.sampled_from(["direct", "direct", "world"])), "arg": draw(st.sampled_from(["list", "set", "tuple", "iter", "gen", "keys"]))}
 
 
 # ---------------------------------------------------------------- writes
